@@ -406,4 +406,147 @@ Proof.
   unfold ConcCache.ledges_ok_b in Hok. rewrite forallb_forall in Hok. apply Hok. exact He.
 Qed.
 
+(** ** 3. the compressed log *)
+
+Lemma clear_range_nil : forall f c, clear_range [] f c = [].
+Proof. intros. reflexivity. Qed.
+
+Lemma clear_range_1 : forall l f, clear_range l f 1 = upd_nth l f LEmpty.
+Proof.
+  induction l as [|x r IH]; intros [|f]; simpl; auto.
+  - destruct r; reflexivity.
+  - rewrite IH. reflexivity.
+Qed.
+
+Lemma clear_range_S : forall l f c, clear_range (upd_nth l f LEmpty) (S f) c = clear_range l f (S c).
+Proof.
+  induction l as [|x r IH]; intros [|f] c; simpl; auto.
+  rewrite IH. reflexivity.
+Qed.
+
+Lemma lrun_cons : forall l a r,
+  lrun l (a :: r) = match lstep l a with Some l' => lrun l' r | None => None end.
+Proof. reflexivity. Qed.
+
+Lemma lstep_lock : forall l f,
+  lstep l (LLock f) =
+  match lph l with
+  | GLock => if Nat.eqb f (lnext l) && Nat.ltb f (length (lb l))
+             then Some (mkL (lt l) (upd_nth (lb l) f LEmpty) GLock (S (lnext l))) else None
+  | _ => None
+  end.
+Proof. reflexivity. Qed.
+
+Lemma lstep_unlock : forall l f,
+  lstep l (LUnlock f) =
+  match lph l with
+  | GSweep => if Nat.eqb f 0 && Nat.ltb f (length (lb l))
+              then Some (mkL (lt l) (lb l) GUnlock 1) else None
+  | GUnlock => if Nat.eqb f (lnext l) && Nat.ltb f (length (lb l))
+               then Some (mkL (lt l) (lb l) GUnlock (S (lnext l))) else None
+  | _ => None
+  end.
+Proof. intros l f. unfold ConcCache.lstep. destruct (lph l); reflexivity. Qed.
+
+Theorem lock_run_eq : forall c l f, lrun l (map LLock (seq f (S c))) = llock_run l f (S c).
+Proof.
+  induction c as [|c IH]; intros l f.
+  - change (map LLock (seq f 1)) with [LLock f]. rewrite lrun_cons, lstep_lock.
+    unfold llock_run. destruct (lph l); try reflexivity.
+    rewrite Nat.add_1_r. change (Nat.leb (S f) (length (lb l))) with (Nat.ltb f (length (lb l))).
+    destruct (Nat.eqb_spec f (lnext l)) as [->|]; [|reflexivity].
+    destruct (Nat.ltb (lnext l) (length (lb l))); [|reflexivity]. cbn [andb lrun].
+    rewrite clear_range_1. reflexivity.
+  - change (map LLock (seq f (S (S c)))) with (LLock f :: map LLock (seq (S f) (S c))).
+    rewrite lrun_cons, lstep_lock. unfold llock_run at 1. destruct (lph l) eqn:Hp; try reflexivity.
+    destruct (Nat.eqb_spec f (lnext l)) as [E|Hne]; cbn [andb]; [|reflexivity].
+    destruct (Nat.ltb_spec f (length (lb l))) as [Hlt|Hge].
+    + rewrite IH. unfold llock_run. cbn [lph lnext lb lt].
+      rewrite length_upd_nth. rewrite <- E. rewrite Nat.eqb_refl. cbn [andb].
+      replace (S f + S c) with (f + S (S c)) by lia.
+      destruct (Nat.leb (f + S (S c)) (length (lb l))); [|reflexivity].
+      rewrite clear_range_S. reflexivity.
+    + destruct (Nat.leb_spec (f + S (S c)) (length (lb l))) as [Hle|_]; [lia | reflexivity].
+Qed.
+
+Theorem unlock_run_eq : forall c l f, lrun l (map LUnlock (seq f (S c))) = lunlock_run l f (S c).
+Proof.
+  induction c as [|c IH]; intros l f.
+  - change (map LUnlock (seq f 1)) with [LUnlock f]. rewrite lrun_cons, lstep_unlock.
+    unfold lunlock_run. rewrite Nat.add_1_r.
+    change (Nat.leb (S f) (length (lb l))) with (Nat.ltb f (length (lb l))).
+    destruct (lph l); try reflexivity.
+    + destruct (Nat.eqb_spec f 0) as [->|]; [|reflexivity].
+      destruct (Nat.ltb 0 (length (lb l))); reflexivity.
+    + destruct (Nat.eqb_spec f (lnext l)) as [->|]; [|reflexivity].
+      destruct (Nat.ltb (lnext l) (length (lb l))); reflexivity.
+  - change (map LUnlock (seq f (S (S c)))) with (LUnlock f :: map LUnlock (seq (S f) (S c))).
+    rewrite lrun_cons, lstep_unlock. unfold lunlock_run at 1.
+    assert (Hgen : forall next,
+      match (if Nat.eqb f next && Nat.ltb f (length (lb l))
+             then Some (mkL (lt l) (lb l) GUnlock (S next)) else None) with
+      | Some l' => lrun l' (map LUnlock (seq (S f) (S c)))
+      | None => None
+      end =
+      (if Nat.eqb f next && Nat.leb (f + S (S c)) (length (lb l))
+       then Some (mkL (lt l) (lb l) GUnlock (f + S (S c))) else None)).
+    { intros next. destruct (Nat.eqb_spec f next) as [E|Hne]; cbn [andb]; [|reflexivity].
+      destruct (Nat.ltb_spec f (length (lb l))) as [Hlt|Hge].
+      - rewrite IH. unfold lunlock_run. cbn [lph lnext lb lt].
+        rewrite <- E. rewrite Nat.eqb_refl. cbn [andb].
+        replace (S f + S c) with (f + S (S c)) by lia. reflexivity.
+      - destruct (Nat.leb_spec (f + S (S c)) (length (lb l))) as [Hle|_]; [lia | reflexivity]. }
+    destruct (lph l) eqn:Hp; try reflexivity.
+    + apply (Hgen 0).
+    + apply (Hgen (lnext l)).
+Qed.
+
+(** a run is well-formed if it is not empty *)
+Definition cwf (a : clact) : Prop :=
+  match a with CL _ => True | CLockRun _ c | CUnlockRun _ c => c <> 0 end.
+
+(** the compressed replay is the plain replay of the expanded log *)
+Theorem clstep_expand : forall l a, cwf a -> lrun l (cexpand a) = clstep k terms nl l a.
+Proof.
+  intros l [a0|f c|f c] Hw; simpl in *.
+  - destruct (lstep l a0); reflexivity.
+  - destruct c as [|c]; [congruence|]. apply lock_run_eq.
+  - destruct c as [|c]; [congruence|]. apply unlock_run_eq.
+Qed.
+
+Lemma lrun_app : forall a b l, lrun l (a ++ b) = match lrun l a with Some l' => lrun l' b | None => None end.
+Proof.
+  induction a as [|x r IH]; intros b l; simpl; [reflexivity|].
+  destruct (lstep l x); [apply IH | reflexivity].
+Qed.
+
+Theorem clrun_expand : forall log l, (forall a, In a log -> cwf a) ->
+  clrun k terms nl l log = lrun l (flat_map cexpand log).
+Proof.
+  induction log as [|a r IH]; intros l Hw; simpl; [reflexivity|].
+  rewrite lrun_app, (clstep_expand l a (Hw a (or_introl eq_refl))).
+  destruct (clstep k terms nl l a); [apply IH; intros; apply Hw; right; assumption | reflexivity].
+Qed.
+
+(** an empty run is never accepted *)
+Lemma clstep_wf : forall l a l', clstep k terms nl l a = Some l' -> cwf a.
+Proof.
+  intros l [a0|f c|f c] l' H; simpl in *; auto; destruct c; try discriminate; congruence.
+Qed.
+
+(** hence: whatever the compressed replay accepts keeps the log-level invariant *)
+Theorem clstep_inv : forall l a l', LInv l -> clstep k terms nl l a = Some l' -> LInv l'.
+Proof.
+  intros l a l' H Hs. pose proof (clstep_wf l a l' Hs) as Hw.
+  rewrite <- (clstep_expand l a Hw) in Hs. apply (lrun_inv _ l l' H Hs).
+Qed.
+
+Theorem clrun_inv : forall log l l', LInv l -> clrun k terms nl l log = Some l' -> LInv l'.
+Proof.
+  induction log as [|a r IH]; intros l l' H Hr; simpl in Hr.
+  - inversion Hr; subst. exact H.
+  - destruct (clstep k terms nl l a) as [l1|] eqn:Hs; [|discriminate].
+    apply (IH l1 l' (clstep_inv l a l1 H Hs) Hr).
+Qed.
+
 End Log.
